@@ -18,10 +18,11 @@ EXTENDS Naturals, Sequences, FiniteSets, TLC, Json, IOUtils
 
 Files == {"A", "B", "C", "D", "E"}
 Proto3 == {"A", "B", "C", "E"}
-FeatureParams == {"absent", "all", "fast+protoc", "protoc+fast", "fast", "protoc", "unknown", "fast+unknown", "empty"}
+FeatureParams == {"absent", "all", "fast+protoc", "protoc+fast", "fast", "protoc", "unknown", "fast+unknown", "unknown+fast", "empty",
+                  "all+unknown", "unknown+all", "fast+fast", "all+fast", "Fast"}
 PathsParams == {"absent", "import", "source_relative", "bogus"}
 MParams == {"none", "mapA"}           \* M<file A>=<other import path>
-FlagParams == {"none", "unknownflag"}
+FlagParams == {"none", "unknownflag", "pool"}   \* pool=<object>: accepted, without effect on the output
 
 \* the feature names a parameter asks for ("?" stands for a name that is not registered)
 Asked(fp) == CASE fp \in {"absent", "all"} -> {"fast", "protoc"}
@@ -29,7 +30,11 @@ Asked(fp) == CASE fp \in {"absent", "all"} -> {"fast", "protoc"}
                [] fp = "fast" -> {"fast"}
                [] fp = "protoc" -> {"protoc"}
                [] fp = "unknown" -> {"?"}
-               [] fp = "fast+unknown" -> {"fast", "?"}
+               [] fp \in {"fast+unknown", "unknown+fast"} -> {"fast", "?"}
+               [] fp \in {"all+unknown", "unknown+all"} -> {"fast", "protoc", "?"}   \* an unknown name is an error wherever it stands
+               [] fp = "fast+fast" -> {"fast"}
+               [] fp = "all+fast" -> {"fast", "protoc"}
+               [] fp = "Fast" -> {"?"}                    \* names are case-sensitive
                [] fp = "empty" -> {"?"}        \* features= splits into the single empty name
 
 \* findFeatures ranges a Go map in order `iter` and then SORTS by name: the result must not
@@ -37,7 +42,8 @@ Asked(fp) == CASE fp \in {"absent", "all"} -> {"fast", "protoc"}
 Sorted == IF "VERIF_SORTED" \in DOMAIN IOEnv THEN IOEnv.VERIF_SORTED # "0" ELSE TRUE
 FeatureOrder(fp, iter) ==
     LET fs == Asked(fp)
-    IN IF fs = {"fast", "protoc"} THEN (IF Sorted \/ iter = 1 THEN <<"fast", "protoc">> ELSE <<"protoc", "fast">>)
+    IN IF "?" \in fs THEN <<>>
+       ELSE IF fs = {"fast", "protoc"} THEN (IF Sorted \/ iter = 1 THEN <<"fast", "protoc">> ELSE <<"protoc", "fast">>)
        ELSE IF fs = {"fast"} THEN <<"fast">> ELSE IF fs = {"protoc"} THEN <<"protoc">> ELSE <<>>
 
 \* does the plugin emit a file for f under these features?  (the protoc feature alone reports
